@@ -6,13 +6,15 @@ from harness.core import Result
 
 MANIFEST = dict(
     design_ref="DESIGN.md §6 Group O / C06",
-    text="Coq theorems over every label list of the observer LTS (Model/Observer.v, scripted-emitter shutdown contract): "
-         "C06_no_deadlock (no reachable state is deadlocked: wait-for argument - the observer lock's holder is never blocked on "
-         "the lock, an emitter thread never needs the lock and exits within 3 own steps once its flag is set, the stop marker is "
-         "in the queue whenever the flagged dispatcher waits in get), C06_emitter_bounded / C06_dispatcher_exits (bounded "
-         "shutdown of library threads), stop twice / stop from a callback as reachable-state examples. Tied to /repo by lock-step "
-         "replay; the oracle (scheduler deadlock detector, livelock, threads alive after the final stop()+join(), uncaught "
-         "exceptions in library threads) also runs with the REAL PollingEmitter (virtual clock) and InotifyEmitter (fake kernel).",
+    text="Coq theorems over every label list of the observer LTS (Model/Observer.v, start() under the observer lock, "
+         "scripted-emitter shutdown contract): C06_no_deadlock (deadlocked s = false for EVERY reachable state; wait-for argument "
+         "over the inductive invariants LockInv, EmRef, ItInv, MarkerInv, JInv, DA), C06_enabled_sound / "
+         "C06_stuck_implies_progress (an enabled thread can step, a stuck thread coexists with an enabled one), "
+         "C06_emitter_iteration_stable, C06_emitter_never_blocked, C06_emitter_bounded and C06_dispatcher_bounded (bounded shutdown: "
+         "own steps of library threads strictly decrease em_bound / dbound once the stop flag is set), stop twice / stop from a "
+         "callback as reachable-state examples. Tied to /repo by lock-step replay; the oracle (scheduler deadlock detector, "
+         "livelock, threads alive after the final stop()+join(), uncaught exceptions in library threads) also runs with the REAL "
+         "PollingEmitter (virtual clock) and InotifyEmitter (fake kernel).",
     note="Liveness is reduced to weak fairness of the OS scheduler (stated hypothesis); C-level blocking inside CPython is outside "
          "the model; the inotify close/read protocol is C12's, the debouncer hang F5 is C18's.",
     technique="Coq proof (wait-for invariant of an LTS) + lock-step correspondence + exhaustive small-scope call orders under a "
